@@ -725,45 +725,67 @@ def part_from_matchfile(
         ts_beat_type = tsg.denominator
         # check if time signature is in a known measure (from notes)
         if ts_bar in bar_times.keys():
-            bar_start_divs = int(divs * (bar_times[ts_bar] - offset))  # in quarters
+            bar_start_divs = int(round(divs * (bar_times[ts_bar] - offset)))  # in quarters
             bar_start_divs = max(0, bar_start_divs)
         else:
-            bar_start_divs = 0
+            # no note starts in that measure: use the position of the signature itself
+            bar_start_divs = int(
+                round(divs * (float(beats_to_quarters(ts_beat_time)) - offset))
+            )
+            bar_start_divs = max(0, bar_start_divs)
         part.add(score.TimeSignature(ts_beats, ts_beat_type), bar_start_divs)
     # add key signatures
     for ks_beat_time, ks_bar, keys in mf.key_signatures:
         if ks_bar in bar_times.keys():
-            bar_start_divs = int(divs * (bar_times[ks_bar] - offset))  # in quarters
+            bar_start_divs = int(round(divs * (bar_times[ks_bar] - offset)))  # in quarters
             bar_start_divs = max(0, bar_start_divs)
         else:
-            bar_start_divs = 0
+            bar_start_divs = int(
+                round(divs * (float(beats_to_quarters(ks_beat_time)) - offset))
+            )
+            bar_start_divs = max(0, bar_start_divs)
 
         # TODO
         # * use key estimation if there are multiple defined keys
         # fifths, mode = key_name_to_fifths_mode(key_name)
-        part.add(score.KeySignature(keys.fifths, keys.mode), ks_bar)
+        part.add(score.KeySignature(keys.fifths, keys.mode), bar_start_divs)
 
     add_staffs(part)
     # add_clefs(part)
 
+    def full_measure_divs(start_in_quarters):
+        # length of a complete measure that starts here; the position is probed half a
+        # division inside the measure because bar positions come from 4-decimal beat values
+        probe = start_in_quarters + 0.5 / divs
+        return int(round(divs * beats_map(probe) * 4 / beat_type_map(probe)))
+
     prev_measure = None
+    prev_name = None
+    prev_start_divs = None
+    prev_start_quarters = None
     for measure_counter, measure_name in enumerate(bar_times.keys()):
         barline_in_quarters = bar_times[measure_name]
         barline_in_divs = int(round(divs * (barline_in_quarters - offset)))
         if barline_in_divs < 0:
             barline_in_divs = 0
         if prev_measure is not None:
-            part.add(prev_measure, None, barline_in_divs)
+            prev_end_divs = barline_in_divs
+            if measure_name > prev_name + 1:
+                # no note starts in the measure(s) in between: the previous measure keeps
+                # its own length (an anacrusis ends at beat 0), add_measures fills the gap
+                if prev_start_quarters < 0:
+                    natural_end = int(round(divs * (0 - offset)))
+                else:
+                    natural_end = prev_start_divs + full_measure_divs(prev_start_quarters)
+                if prev_start_divs < natural_end < prev_end_divs:
+                    prev_end_divs = natural_end
+            part.add(prev_measure, None, prev_end_divs)
         prev_measure = score.Measure(number=measure_counter + 1, name=str(measure_name))
         part.add(prev_measure, barline_in_divs)
-    last_closing_barline = barline_in_divs + int(
-        round(
-            divs
-            * beats_map(barline_in_quarters)
-            * 4
-            / beat_type_map(barline_in_quarters)
-        )
-    )
+        prev_name = measure_name
+        prev_start_divs = barline_in_divs
+        prev_start_quarters = barline_in_quarters
+    last_closing_barline = barline_in_divs + full_measure_divs(barline_in_quarters)
     part.add(prev_measure, None, last_closing_barline)
 
     # add the rest of the measures automatically
